@@ -41,7 +41,13 @@ func (p *BinaryProtocol) Skip(wireType proto.WireType, useNative bool) (err erro
 }
 
 // fast skip all elements in LIST/MAP
+// NOTICE: a packed list is walked as varints; use SkipAllElementsByType for packed fixed32/fixed64/float/double elements
 func (p *BinaryProtocol) SkipAllElements(fieldNumber proto.FieldNumber, ispacked bool) (size int, err error) {
+	return p.SkipAllElementsByType(fieldNumber, ispacked, proto.VarintType)
+}
+
+// SkipAllElementsByType fast skips all elements in LIST/MAP, the elements of a packed list being of the given wire type
+func (p *BinaryProtocol) SkipAllElementsByType(fieldNumber proto.FieldNumber, ispacked bool, elemWireType proto.WireType) (size int, err error) {
 	size = 0
 	if ispacked {
 		if _, _, _, err := p.ConsumeTag(); err != nil {
@@ -52,11 +58,17 @@ func (p *BinaryProtocol) SkipAllElements(fieldNumber proto.FieldNumber, ispacked
 			return -1, err
 		}
 		start := p.Read
+		if bytelen < 0 || start+int(bytelen) > len(p.Buf) {
+			return -1, errDecodeField
+		}
 		for p.Read < start+int(bytelen) {
-			if _, err := p.ReadVarint(); err != nil {
+			if err := p.Skip(elemWireType, false); err != nil {
 				return -1, err
 			}
 			size++
+		}
+		if p.Read != start+int(bytelen) {
+			return -1, errDecodeField
 		}
 	} else {
 		for p.Read < len(p.Buf) {
